@@ -293,25 +293,39 @@ def check_fold_guards(idx: Index, rep: Report) -> None:
 def check_cse(idx: Index, rep: Report) -> None:
     r = rep.rule("C14.R5", "CSE replaces an op only if it is side-effect free, or read-only with the earlier op in the same block and no possible write in between", floor=2)
     f = idx.func(CSE, "CSEDriver._simplify_operation")
-    calls = [c for c in calls_in(f.node) if unparse(c.func) == "self._replace_and_delete"]
-    if len(calls) != 2:
-        raise AnalysisError(f"{f.fq}: expected two replacement sites")
-    for c in calls:
-        facts = text_facts(f.node, c)
-        ro = ("is_side_effect_free(op)", False) in facts
-        inst = f"{f.fq}:{'read-only' if ro else 'pure'}"
-        if ro:
-            need = [("only_has_effect(op, MemoryEffectKind.READ)", True), ("op.parent_block() is existing.parent_block()", True), ("has_other_side_effecting_op_in_between(existing, op)", False)]
-            miss = [n for n in need if n not in facts]
-            if miss:
-                r.fail(inst, Finding("C14.R5", f.fq, "read-only-guards", f"a reading operation is replaced without {miss}", f"{CSE}:{c.lineno}"))
-            else:
-                r.ok(inst, f"{CSE}:{c.lineno} read-only: same block and no write in between")
+    from ..paths import enum_paths, expand_predicates
+
+    helpers = {nm: (d[0].raw_node, True) for nm, d in (f.cls.methods.items() if f.cls is not None else []) if nm.startswith("_") and not nm.startswith("__") and nm not in ("_replace_and_delete", "_mark_erasure", "_simplify_operation")}
+    paths = [p for p in expand_predicates(enum_paths(f.raw_node), helpers) if p.feasible()]
+    n_sites = 0
+    for pth in paths:
+        reps_ = [(k, e_) for k, e_ in enumerate(pth.effects) if isinstance(e_, ast.Expr) and isinstance(e_.value, ast.Call) and unparse(e_.value.func) == "self._replace_and_delete"]
+        if not reps_:
+            continue
+        n_sites += 1
+        k, e_ = reps_[0]
+        args = [pth.res(a_, k) for a_ in e_.value.args]  # type: ignore[attr-defined]
+        nf = pth.nfacts()
+        pure = next((pol for t_, pol in nf if t_ == "is_side_effect_free(op)"), None)
+        inst = f"{f.fq}:{'pure' if pure else 'read-only'}"
+        loc = f"{CSE}:{e_.lineno}"
+        if args[:1] != ["op"] or len(args) != 2 or "self._known_ops.get(op)" not in args[1]:
+            r.fail(inst, Finding("C14.R5", f.fq, "replacement-source", f"`{unparse(e_)}` replaces `{args[0] if args else '?'}` by `{args[1] if len(args) > 1 else '?'}`, not by the known equal operation self._known_ops.get(op)", loc))
+            continue
+        if pure is True:
+            r.ok(inst, f"{loc} side-effect-free op replaced by the known equal op")
+            continue
+        ex = args[1]
+        need = [("only_has_effect(op, MemoryEffectKind.READ)", True), (f"op.parent_block() is {ex}.parent_block()", True), (f"has_other_side_effecting_op_in_between({ex}, op)", False)]
+        miss = [n_ for n_ in need if n_ not in nf]
+        if miss and pure is None:
+            r.fail(inst, Finding("C14.R5", f.fq, "pure-guard", f"an operation is replaced without being known side-effect free (and without the read-only guards {miss})", loc))
+        elif miss:
+            r.fail(inst, Finding("C14.R5", f.fq, "read-only-guards", f"a reading operation is replaced without {miss}", loc))
         else:
-            if ("is_side_effect_free(op)", True) in facts or any(t == "is_side_effect_free(op)" and not p for t, p in facts) is False and _after_effect_branch(f, c):
-                r.ok(inst, f"{CSE}:{c.lineno} side-effect-free op replaced by the known equal op")
-            else:
-                r.fail(inst, Finding("C14.R5", f.fq, "pure-guard", "an operation is replaced without being known side-effect free", f"{CSE}:{c.lineno}"))
+            r.ok(inst, f"{loc} read-only: same block and no write in between")
+    if n_sites == 0:
+        raise AnalysisError(f"{f.fq}: no path replaces the operation by a known one")
     g = idx.func(CSE, "has_other_side_effecting_op_in_between")
     t = unparse(g.node)
     if "effects is None or any((e.kind is MemoryEffectKind.WRITE for e in effects))" in t and "while next_op is not to_op:" in t:
